@@ -178,7 +178,7 @@ fn type_last_ident(t: &syn::Type) -> Option<String> {
     }
 }
 
-fn find_item(items: &[syn::Item], sel: &[String]) -> Option<Found> {
+fn find_item(items: &[syn::Item], sel: &[String], nth: &mut usize) -> Option<Found> {
     // selectors: ["fn", NAME] | ["impl", TYPE, "fn", NAME] | ["impl", TRAIT, "for", TYPE, "fn", NAME]
     //          | ["const"|"struct"|"enum"|"static"|"type", NAME] | ["mod", M, ...rest]
     match sel[0].as_str() {
@@ -187,7 +187,7 @@ fn find_item(items: &[syn::Item], sel: &[String]) -> Option<Found> {
                 if let syn::Item::Mod(m) = it {
                     if m.ident == sel[1] {
                         if let Some((_, inner)) = &m.content {
-                            return find_item(inner, &sel[2..]);
+                            return find_item(inner, &sel[2..], nth);
                         }
                     }
                 }
@@ -222,6 +222,7 @@ fn find_item(items: &[syn::Item], sel: &[String]) -> Option<Found> {
                     for ii in &im.items {
                         if let syn::ImplItem::Fn(f) = ii {
                             if f.sig.ident == name && norm::cfg_value(&f.attrs) != Some(false) {
+                                if *nth > 1 { *nth -= 1; continue; }
                                 return Some(Found::Method { imp: im.clone(), f: f.clone() });
                             }
                         }
@@ -551,7 +552,8 @@ fn main() {
             parsed.insert(d.file.clone(), (src, f));
         }
         let (src, file) = parsed.get(&d.file).unwrap();
-        let Some(found) = find_item(&file.items, &d.selector) else {
+        let mut nth: usize = d.opts.iter().find_map(|o| o.strip_prefix("nth=").and_then(|v| v.parse().ok())).unwrap_or(1);
+        let Some(found) = find_item(&file.items, &d.selector, &mut nth) else {
             problems.push(format!("item not found: {} {}", d.file, d.selector.join(" ")));
             continue;
         };
@@ -562,6 +564,14 @@ fn main() {
             Found::Other(mut it) => {
                 let sp = span_lines(it.span());
                 norm::strip_item_attrs(&mut it);
+                // structs: every field made `pub` (the unit is one crate; privacy is not what is being verified)
+                if let syn::Item::Struct(st) = &mut it {
+                    let mut widened = false;
+                    for f in st.fields.iter_mut() {
+                        if !matches!(f.vis, syn::Visibility::Public(_)) { f.vis = syn::Visibility::Public(Default::default()); widened = true; }
+                    }
+                    if widened { n.rules.push(norm::RuleApp { rule: "N12".into(), line: sp.0, note: "private struct fields made pub in the unit".into() }); }
+                }
                 // const/static items: elided reference lifetimes are 'static (made explicit for the verus! macro)
                 {
                     struct St;
